@@ -442,8 +442,10 @@ impl BitVector {
                 self.push(value)?;
             }
         } else if new_len < self.len {
-            // Truncate
+            // Truncate, dropping the blocks that no longer hold any bit
             self.len = new_len;
+            let required_blocks = (new_len + BITS_PER_BLOCK - 1) / BITS_PER_BLOCK;
+            self.blocks.resize(required_blocks, 0)?;
 
             // Clear bits in the last partial block
             if new_len > 0 {
